@@ -347,7 +347,9 @@ func NewFECase(g *Gen, id int) *Case {
 			}
 		} else {
 			meth := Pick(g.R, []string{"POST", "PUT", "PATCH", "DELETE", "OPTIONS"})
-			ct := Pick(g.R, []string{"application/json", "application/json; charset=utf-8", "application/json;charset=UTF-8", "Application/JSON", " application/json ; charset=utf-8", "APPLICATION/JSON\t"})
+			ct := Pick(g.R, []string{"application/json", "application/json; charset=utf-8", "application/json;charset=UTF-8", "Application/JSON", " application/json ; charset=utf-8", "APPLICATION/JSON\t",
+				// parameters are ignored, whatever they say: the media type alone decides
+				"application/json; charset=iso-8859-1", "application/json; charset=\"windows-1252\"", "application/json;charset=utf-16", "application/json; version=2; charset=us-ascii", "application/json; charset=latin1"})
 			q := ""
 			if len(n.Fields) > 0 && g.R.P(50) {
 				q = "?" + url.QueryEscape(feKey(n.Fields[0], "json")) + "=decoy"
@@ -438,7 +440,8 @@ func NewFECase(g *Gen, id int) *Case {
 		enc := vals.Encode()
 		if fe == "http-form" {
 			meth := Pick(g.R, []string{"POST", "PUT", "PATCH", "DELETE"})
-			ct := Pick(g.R, []string{"application/x-www-form-urlencoded", "application/x-www-form-urlencoded; charset=UTF-8", "Application/X-WWW-Form-Urlencoded", " application/x-www-form-urlencoded ;charset=UTF-8"})
+			ct := Pick(g.R, []string{"application/x-www-form-urlencoded", "application/x-www-form-urlencoded; charset=UTF-8", "Application/X-WWW-Form-Urlencoded", " application/x-www-form-urlencoded ;charset=UTF-8",
+				"application/x-www-form-urlencoded; charset=iso-8859-1", "application/x-www-form-urlencoded; boundary=x; charset=us-ascii"})
 			body := enc
 			query := ""
 			if g.R.P(30) && len(n.Fields) > 0 {
